@@ -112,19 +112,19 @@ Section Accept.
   Variables (c : cfg) (b hd rest : bytes) (m t v : bytes) (h : headers) (ka : bool).
   Hypothesis Hhead : head_at c b hd rest.
   Hypothesis Hparse : parse_head hd = Some (m, t, v, h).
-  Hypothesis Hka : can_keep_alive m v h = Some ka.
+  Hypothesis Hka : can_keep_alive (no_keep_alive c) m v h = Some ka.
   Hypothesis Hhost : host_check v h = HOk.
 
-  Let req := EvReq m t v (get_all h).
+  Let req := req_evs m t v h.
   Let after (s : bytes) : list ev * option bytes := if ka then ([], Some s) else ([EvDone], None).
 
   (* no Content-Length, no Transfer-Encoding: no body *)
   Theorem accept_no_body :
     body_plan (eff_max_body c) h = Some PNone ->
-    serve_msg whole_ops plain_dlg c b = (req :: EvFin :: fst (after rest), snd (after rest)).
+    serve_msg whole_ops plain_dlg c b = (req ++ EvFin :: fst (after rest), snd (after rest)).
   Proof.
     intros Pl. open_msg Hhead. rewrite Hparse, Hka. cbn [d_headers plain_dlg]. rewrite Hhost, Pl.
-    unfold finish_body, next, after. destruct ka; reflexivity.
+    unfold finish_body, next, after. cbn [body_ev]. rewrite app_nil_r. destruct ka; reflexivity.
   Qed.
 
   (* Content-Length: n with at least n bytes following: exactly those n bytes are delivered
@@ -132,7 +132,7 @@ Section Accept.
   Theorem accept_content_length n :
     body_plan (eff_max_body c) h = Some (PFixed n) -> (n <= N.of_nat (length rest))%N ->
     serve_msg whole_ops plain_dlg c b =
-      (req :: body_ev (firstn (N.to_nat n) rest) ++ EvFin :: fst (after (skipn (N.to_nat n) rest)),
+      ((req ++ body_ev (firstn (N.to_nat n) rest)) ++ EvFin :: fst (after (skipn (N.to_nat n) rest)),
        snd (after (skipn (N.to_nat n) rest))).
   Proof.
     intros Pl Le. open_msg Hhead. rewrite Hparse, Hka. cbn [d_headers plain_dlg]. rewrite Hhost, Pl.
@@ -145,7 +145,7 @@ Section Accept.
      never finished *)
   Theorem truncated_content_length n :
     body_plan (eff_max_body c) h = Some (PFixed n) -> (N.of_nat (length rest) < n)%N ->
-    serve_msg whole_ops plain_dlg c b = (req :: body_ev rest ++ [EvEof], None).
+    serve_msg whole_ops plain_dlg c b = ((req ++ body_ev rest) ++ [EvEof], None).
   Proof.
     intros Pl Le. open_msg Hhead. rewrite Hparse, Hka. cbn [d_headers plain_dlg]. rewrite Hhost, Pl.
     cbn [rd_body whole_ops]. unfold w_body. apply N.leb_gt in Le. rewrite Le.
@@ -159,7 +159,7 @@ Section Accept.
     Forall chunk_ok cs -> parse_hex_int z = Some 0%N -> (length z <= 62)%nat ->
     (chunks_len cs <= eff_max_body c)%N ->
     serve_msg whole_ops plain_dlg c b =
-      (req :: body_ev (chunks_data cs) ++ EvFin :: fst (after rest'), snd (after rest')).
+      ((req ++ body_ev (chunks_data cs)) ++ EvFin :: fst (after rest'), snd (after rest')).
   Proof.
     intros Pl W OK Z ZL M. open_msg Hhead. rewrite Hparse, Hka. cbn [d_headers plain_dlg].
     rewrite Hhost, Pl. cbn [remaining whole_ops].
